@@ -181,7 +181,7 @@ def report(pid, tier, seed, t0, items, verdicts, judged, stats, level_cov, assum
 
 
 def run_syn_events(pid, tier, seed, items, judged, model="a -?? a\nb -?? a\n", module="Trace_Syn.tla", cfg="Trace_Syn.cfg",
-                   cov=None, chunk=1200):
+                   cov=None, chunk=1200, extra=None):
     """items: harness `syn` items (with id, kind, kinds)."""
     t0 = time.time()
     common.build()
@@ -200,12 +200,46 @@ def run_syn_events(pid, tier, seed, items, judged, model="a -?? a\nb -?? a\n", m
                for it in items[:3]]
     lc = {"samples": samples}
     lc.update(cov or {})
+    if extra:
+        add = extra.pop("_add", (0, 0))
+        stats["distinct"] += add[0]
+        stats["states"] += add[1]
+        lc.update(extra)
     return report(pid, tier, seed, t0, items, verdicts, judged, stats, lc, ASSUME_SYN,
                   lambda it, failed: {"property": pid, "failed_judgements": failed, "model": model, "items": [it], "recorded": byid[it["id"]]})
 
 
+def mode_a_syntax(tier, wd):
+    """MC_Syntax: ImplParse = Parse on every token sequence up to the bound. Returns (generated, distinct, L)."""
+    import concurrent.futures
+    L = 5 if tier == "thorough" else 4
+    parts = 23 if tier == "thorough" else 8
+
+    def one(part):
+        return common.run_tlc("MC_Syntax.tla", "MC_Syntax.cfg", os.path.join(wd, "meta-syn-%d" % part),
+                              env={"SYN_L": str(L), "PARTS": str(parts), "PART": str(part)}, timeout=3400, xmx="4g")
+
+    gs = ds = 0
+    with concurrent.futures.ThreadPoolExecutor(max_workers=common.NPROC) as ex:
+        for out, rc, wall in ex.map(one, range(parts)):
+            if "No error has been found" not in out:
+                raise ToolError("MC_Syntax: the parsing algorithm model and the grammar disagree (design-level counterexample):\n" + out[-3000:])
+            g, d = common.tlc_counts(out)
+            gs += g
+            ds += d
+    return gs, ds, L
+
+
 def run_c05(tier, seed, replay):
     rng = random.Random(seed * 7919 + 5)
+    extra_a = {}
+    if not replay:
+        common.build()
+        wd_a = common.workdir("C05-%s-model" % tier)
+        g, d, L = mode_a_syntax(tier, wd_a)
+        extra_a = {"mode_A_syntax": {"module": "spec/MC_Syntax.tla", "token_sequences": d, "max_length": L,
+                                     "invariant": "ImplParse = Parse; accepted trees re-parse to themselves from their token rendering"},
+                   "_add": (d, g)}
     if replay:
         items = json.load(open(replay))["items"]
     else:
@@ -219,7 +253,7 @@ def run_c05(tier, seed, replay):
         n_enum = len(texts)
         texts += synprops.random_strings(rng, 20000 if tier == "thorough" else 3000)
         items = [{"id": "s%d" % i, "kind": "parse", "kinds": ["c05"], "text": s} for i, s in enumerate(texts)]
-    return run_syn_events("C05", tier, seed, items, ["c05"],
+    return run_syn_events("C05", tier, seed, items, ["c05"], extra=extra_a,
                           cov={"rule": "all token sequences up to a length bound over a representative alphabet, rendered to text, plus seeded random / grammar-mutated / unicode strings; each judged by TLC: tokens = Syntax.Lex, tree = Syntax.Parse, in both languages"})
 
 
@@ -303,7 +337,11 @@ def run_c07(tier, seed, replay):
                 n += 1
         for i, s in enumerate(scoped_strings(rng, 8000 if tier == "thorough" else 1500)):
             items.append({"id": "r%d" % i, "kind": "prep", "kinds": ["c07"], "text": s})
-    return run_syn_events("C07", tier, seed, items, ["c07"], module="Trace_Scope.tla", cfg="Trace_Scope.cfg",
+    extra = None
+    if not replay:
+        g, d = common.mode_a("MC_Scope.tla", "MC_Scope.cfg", common.workdir("C07-%s-model" % tier), env={"SCOPE_N": "4" if tier == "thorough" else "3"})
+        extra = {"mode_A_scope": {"module": "spec/MC_Scope.tla", "states": d, "invariants": "RenameOK (alpha-equivalent, depth-named, minimal, idempotent) on all well-scoped trees up to the bound; CanonOK"}, "_add": (d, g)}
+    return run_syn_events("C07", tier, seed, items, ["c07"], module="Trace_Scope.tla", cfg="Trace_Scope.cfg", extra=extra,
                           cov={"rule": "all trees up to a size bound over variable names colliding with the internal ones (x, xx, y), and seeded random formulae with injected binding errors; accepted <=> WellScoped and known propositions; result = Scope.Rename, alpha-equivalent (de Bruijn), depth-named, idempotent"})
 
 
@@ -320,7 +358,11 @@ def run_c09(tier, seed, replay):
             batch = semprops.overlapping_batch(rng, fg, rng.randint(1, 3))
             batch = [f for f in batch if gen.size(f) <= 16] or [fg.gen(6)]
             items.append({"id": "c%d" % i, "kind": "canon", "kinds": ["c09canon", "c09dups"], "texts": [gen.render(f) for f in batch]})
-    return run_syn_events("C09", tier, seed, items, ["c09canon", "c09dups"], module="Trace_Scope.tla", cfg="Trace_Scope.cfg", chunk=40,
+    extra = None
+    if not replay:
+        g, d = common.mode_a("MC_Scope.tla", "MC_Scope.cfg", common.workdir("C09-%s-model" % tier), env={"SCOPE_N": "4" if tier == "thorough" else "3"})
+        extra = {"mode_A_scope": {"module": "spec/MC_Scope.tla", "states": d, "invariants": "CanonOK: the canonisation algorithm of the code (Evaluator.Canon) identifies exactly the alpha-equal open sub-formulae of preprocessed trees, is idempotent and injective on free variables; all pairs up to the bound"}, "_add": (d, g)}
+    return run_syn_events("C09", tier, seed, items, ["c09canon", "c09dups"], module="Trace_Scope.tla", cfg="Trace_Scope.cfg", chunk=40, extra=extra,
                           cov={"rule": "seeded lists of 1-3 formulae built to share sub-formulae up to renaming and under different domains; every pair of sub-formulae: canonical texts equal <=> Scope.AlphaEqOpen; renaming injective and consistent with the canonical text; duplicates: counter n => at least n+1 occurrences with identical domains (Scope.IsOccurrenceOf)"})
 
 
